@@ -1417,7 +1417,8 @@ class AnsiString:
             obj = obj[:idx] + replace + obj[idx+len(old):]
             if count > 0:
                 count -= 1
-            idx = obj._s.find(old, idx + len(new))
+            # An empty search string matches at every position - always advance by at least 1 character
+            idx = obj._s.find(old, idx + len(new) + (0 if old else 1))
 
         if inplace:
             self._s = obj._s
